@@ -1943,3 +1943,18 @@ Proof.
     + destruct (c =? 0); [exact Same|]. cbn [fst snd]. exact Same.
 Qed.
 
+
+(** ---- small restatements for Props/C11.v ---- *)
+Lemma verb_recs_spec p : verb_recs p = if is_logged p then [p] else [].
+Proof. unfold verb_recs, is_logged. destruct p as [|[] rest]; reflexivity. Qed.
+Lemma cmd_recs_split now dbs dbi nm rest o :
+  cmd_recs now dbs dbi (FBulk nm :: rest) o =
+  verb_recs (FBulk nm :: rest) ++ dout_recs now (pre_dbs now dbs dbi (upper nm) (FBulk nm :: rest)) dbi (FBulk nm :: rest) o.
+Proof. reflexivity. Qed.
+Lemma exec_queue_state now c q s dbi acc cn :
+  linv s -> zlookup c (s_conns s) = Some cn -> c_db cn = dbi ->
+  st_of (snd (exec_queue now s c dbi q acc)) = run_items now (queue_items dbi q) (st_of s).
+Proof. intros Hi Hc Hd. exact (es_st _ _ _ _ (exec_queue_spec now c q s dbi acc cn Hi Hc Hd)). Qed.
+Lemma served_pop_state now s dbi lf k :
+  linv s -> st_of (served_pop s dbi lf k) = run_items now (ev_items now s (EServed dbi lf k)) (st_of s).
+Proof. intros Hi. exact (es_st _ _ _ _ (served_pop_spec now s dbi lf k Hi)). Qed.
